@@ -98,4 +98,10 @@ func TestC09(t *testing.T) {
 	h.Run(c, "errors", c.N(12000, 120000), gen, oracle)
 	c.Rule("interrupted: 1-3 nested script function invocations (arity 0-6) each with 0-3 deferred host probes plus 0-2 top-level defers; the innermost spins in tick() and the context is cancelled inside the k-th tick: every deferred probe must run exactly once, innermost invocation first, LIFO; non-trivial = >= 2 deferred probes")
 	h.Run(c, "interrupted", c.N(1500, 15000), genInt, oracleInt)
+	if c.Thorough() {
+		flowProfile.MaxDepth++
+		flowProfile.MaxStmts += 2
+	}
+	c.Rule("errors-flow: programs of the errors profile (smaller blocks) in which two patterns are drawn often. (a) a try whose catch block logs its catch variable, then runs a second try that catches another error under the SAME variable name (20 %: another name; 15 %: the nested try raises nothing) - directly, in a branch, in a for-in loop run twice, in a closure called at once, in a function defined in the catch block (called once or twice), in a function defined before the try, three levels deep, in deferred closures - then logs the variable again and in 40 % throws it again (caught by an enclosing try that logs it, or uncaught); errors: throw of a string / number, host panic, throw in a called function with a deferred probe, undefined name, runtime error inside the interpreter. (b) a loop whose HEADER raises after round r: the post expression of a C-style for (with condition, without condition, init in the header), the condition of a C-style for, the condition of `for cond { }`; the expression is a step function that fails at its n-th call after advancing its counter (bare or as a probe argument), a conditional expression failing while the counter equals r (host panic, undefined name, interpreter operation, called function that throws), an index that leaves its list in round r, an increment of an unbound name; round r ends by running to its end, by continue as the last statement, continue in a branch / in the branch of the other rounds / in else / in a switch case / in a catch block, optionally after one ordinary statement of the profile; the loop stands in a try (with or without finally), in a function with a deferred probe called inside a try or uncaught, or in line uncaught; every round, tail, after-loop statement, result and caught error is logged under a tag; non-trivial = a catch variable was bound while a variable of that name held a caught error, or a caught error was thrown again, or a loop header raised after a round; distinct by source text")
+	h.Run(c, "errors-flow", c.N(2500, 25000), genFlow, oracleFlow)
 }
